@@ -152,7 +152,7 @@ def appendToFilters (s : RState) : List Nat → Pub → M RState
 /-- retained map update shared by `append_to_commitlog` and `append_will_message` -/
 def updateRetained (s : RState) (topic : String) (p : Pub) : RState :=
   let d := s.datalog
-  if p.payload.isEmpty then { s with datalog := { d with retained := aremove topic d.retained } }
+  if p.retain && p.payload.isEmpty then { s with datalog := { d with retained := aremove topic d.retained } }
   else if p.retain then { s with datalog := { d with retained := ainsert topic p d.retained } }
   else s
 
@@ -481,29 +481,28 @@ def subscribeFilters (s : RState) (id : Nat) (subId : Option Nat) :
     | .error e => .error e
     | .ok s => subscribeFilters s id subId rest (codes ++ [f.qos]) fl
 
-/-- the `for filter in &unsubscribe.filters` loop -/
-def unsubscribeFilters (s : RState) (id : Nat) (pkid : Nat) : List String → Flags → M (RState × Flags)
-  | [], fl => .ok (s, fl)
-  | f :: rest, fl =>
+/-- the `for filter in &unsubscribe.filters` loop; returns one reason per filter -/
+def unsubscribeFilters (s : RState) (id : Nat) : List String → List Bool → M (RState × List Bool)
+  | [], rs => .ok (s, rs)
+  | f :: rest, rs =>
     match alookup f s.subscriptionMap with
-    | none => unsubscribeFilters s id pkid rest fl
+    | none => unsubscribeFilters s id rest (rs ++ [false])
     | some ids =>
-      if !ids.contains id then unsubscribeFilters s id pkid rest fl else
+      if !ids.contains id then unsubscribeFilters s id rest (rs ++ [false]) else
       let s := { s with subscriptionMap := ainsert f (ids.filter (· ≠ id)) s.subscriptionMap }
       match getConn s id with
       | none => .error (.panic "connections.get_mut(id).unwrap()")
       | some c =>
-        if !c.subscriptions.contains f then unsubscribeFilters s id pkid rest fl else
+        if !c.subscriptions.contains f then unsubscribeFilters s id rest (rs ++ [false]) else
         let c := { c with subscriptions := c.subscriptions.filter (· ≠ f) }
         let s := { s with shared := removeFromGroups s.shared c.clientId }
         let c := { c with brokerAliases := c.brokerAliases.map (fun b => BrokerAliases.removeAlias b f),
                           subscriptionIds := aremove f c.subscriptionIds }
-        let c := { c with acks := { c.acks with committed := c.acks.committed ++ [Ack.unsuback pkid] },
-                          tracker := { c.tracker with requests := c.tracker.requests.filter (·.filter ≠ f) } }
+        let c := { c with tracker := { c.tracker with requests := c.tracker.requests.filter (·.filter ≠ f) } }
         let s := setConn s id c
         let s := { s with datalog := removeWaiterFor s.datalog id f }
         let s := { s with notifications := s.notifications.filter (fun n => !(n.1 == id && n.2.filter == f)) }
-        unsubscribeFilters s id pkid rest { fl with forceAck := true }
+        unsubscribeFilters s id rest (rs ++ [true])
 
 /-- one packet of the batch -/
 def handlePacket (s : RState) (id : Nat) (clientId : String) (pkt : Packet) (fl : Flags) : M (RState × Flags) :=
@@ -540,7 +539,13 @@ def handlePacket (s : RState) (id : Nat) (clientId : String) (pkt : Packet) (fl 
   | .unsubscribe pkid filters =>
     match getConn s id with
     | none => .error (.panic "connections.get_mut(id).unwrap()")
-    | some _ => unsubscribeFilters s id pkid filters fl
+    | some _ =>
+      match unsubscribeFilters s id filters [] with
+      | .error e => .error e
+      | .ok (s, reasons) =>
+        match commitAck s id (.unsuback pkid reasons) with
+        | .error e => .error e
+        | .ok s => .ok (s, { fl with forceAck := true })
   | .puback pkid =>
     match getConn s id with
     | none => .error (.panic "obufs.get_mut(id).unwrap()")
